@@ -21,6 +21,7 @@ CONSTANTS
   NRand,        \* random combinations per base schema
   WsCount,      \* how many of the whitespace classes the one-gap-at-a-time sweep uses
   PreLayouts,   \* 1: compact only, 2: compact and one-token-per-line
+  FullStyles,   \* TRUE: every spelling style of every item class; FALSE: a representative subset (every class still occurs)
   NRandS        \* number of seeded-random base schemas (rendered under the uniform layouts and random combinations only)
 
 Seed == IF "SEED" \in DOMAIN IOEnv /\ IOEnv.SEED # "" THEN atoi(IOEnv.SEED) ELSE 1
@@ -64,7 +65,9 @@ Mk(tpl, x) ==
 Inst(tpls, tag) == [i \in 1 .. Len(tpls) |-> Mk(tpls[i], tag \o "_" \o ToString(i))]
 
 T(t, st) == [t |-> t, st |-> st]
-Singles(t, n) == [i \in 1 .. n |-> <<T(t, i)>>]
+Styles(t) == IF FullStyles THEN 1 .. 9
+             ELSE CASE t = "com" -> {1, 2, 3, 6} [] t \in {"doc", "idoc"} -> {1, 3, 4} [] OTHER -> {1, 3, 4}
+Singles(t, n) == SelectSeq([i \in 1 .. n |-> <<T(t, i)>>], LAMBDA x : x[1].st \in Styles(t))
 
 TplC   == Singles("com", 9) \o << <<T("com", 1), T("com", 2)>> >>
 TplCD  == TplC \o Singles("doc", 7)
@@ -74,7 +77,7 @@ TplCDA == TplCD \o Singles("attr", 5)
           \o << <<T("attr", 2), T("doc", 1), T("com", 1)>>, <<T("com", 1), T("attr", 1), T("attr", 3), T("doc", 1)>> >>
 TplIA  == Singles("idoc", 6) \o Singles("iattr", 5)
           \o << <<T("iattr", 2), T("idoc", 1)>>, <<T("idoc", 1), T("iattr", 3), T("idoc", 2)>> >>
-TplCI  == Singles("idoc", 6) \o [i \in 1 .. 9 |-> <<T("com", i), T("idoc", 1)>>]
+TplCI  == Singles("idoc", 6) \o SelectSeq([i \in 1 .. 9 |-> <<T("com", i), T("idoc", 1)>>], LAMBDA x : x[1].st \in Styles("com"))
           \o << <<T("com", 1), T("idoc", 1), T("com", 2), T("idoc", 2)>>,
                 <<T("com", 1), T("com", 1), T("idoc", 1), T("idoc", 1)>> >>
 
